@@ -312,6 +312,27 @@ def case_strcmd(rnd):
     return c.done()
 
 
+def case_replay(rnd, shape):
+    """command_endpoint: the parent resolves in collect mode, the agent executes from the recorded macros
+    (useResolvedMacros); same value alphabet, same command shapes as the local families"""
+    if shape == 'str':
+        c = case_strcmd(rnd)
+        run = 1
+    elif shape == 'rec':
+        c = case_recursion(rnd)
+        run = 0
+    else:
+        c = case_args(rnd, True)
+        run = 1 if rnd.random() < 0.3 else 0
+    svc = 0
+    for l in c['lines']:
+        if l.startswith(('mx_resolve', 'mx_exec')) and 'svc=1' in l:
+            svc = 1
+    c['tags']['family'] = 'replay-' + c['tags']['family']
+    c['lines'].append('mx_replay svc=%d run=%d' % (svc, run))
+    return c
+
+
 def case_recursion(rnd):
     c = Case('recursion')
     depth = rnd.choice((0, 1, 2, 5, 12, 13, 14, 15, 16, 18))
@@ -509,6 +530,12 @@ def generate(seed, tier):
         cases.append(case_pure(rnd, tier))
     for _ in range(12 * k):
         cases.append(case_finding(rnd))
+    for _ in range(110 * k):
+        cases.append(case_replay(rnd, 'str'))
+    for _ in range(200 * k):
+        cases.append(case_replay(rnd, 'args'))
+    for _ in range(60 * k):
+        cases.append(case_replay(rnd, 'rec'))
     return cases
 
 
@@ -522,14 +549,14 @@ def nontrivial(case, impl_lines):
 def classify(case, detail, impl_lines):
     if 'crash' in detail or 'missing-observation' in detail:
         return 'crash'
-    for key in ('timeout-not-unknown', 'timeout-marker', 'grandchild-survived', 'exit-map', 'failure-not-unknown', 'argv-through-sh', 'escape', 'perfdata', 'output', 'argv', 'shell-string', 'failure'):
+    for key in ('replay', 'timeout-not-unknown', 'timeout-marker', 'grandchild-survived', 'exit-map', 'failure-not-unknown', 'argv-through-sh', 'escape', 'perfdata', 'output', 'argv', 'shell-string', 'failure'):
         if key in detail:
             return key
     return 'other'
 
 
 def keep_line(l):
-    return l.startswith(('mx_new', 'mx_cmd', 'mx_resolve', 'mx_exec'))
+    return l.startswith(('mx_new', 'mx_cmd', 'mx_resolve', 'mx_exec', 'mx_replay'))
 
 
 def extra_stats(cases, impl):
@@ -553,6 +580,12 @@ def extra_stats(cases, impl):
                 for t in l.split():
                     if t.startswith('state='):
                         st['exec_state_' + t[6:]] += 1
+            elif l.startswith('rcoll'):
+                st['replay_collect_' + l.split()[1]] += 1
+            elif l.startswith('rres'):
+                st['replay_resolve_' + l.split()[1]] += 1
+            elif l.startswith('rexec'):
+                st['replay_executions'] += 1
             elif l.startswith('esc'):
                 st['escape_calls'] += 1
             elif l.startswith('out '):
